@@ -657,6 +657,21 @@ func generate(repo, out string) error {
 		return err
 	}
 
+	// 4n. the column typing of ReadCSV (`columnToData`) as a term of QF.IS (iast.go)
+	if err := writeIfChanged(filepath.Join(out, "Infer.lean"), []byte(inferLean(repo))); err != nil {
+		return err
+	}
+
+	// 4o. Column.Scan of internal/io/sql, its helpers and the coercions as terms of QF.SX (sast.go)
+	if err := writeIfChanged(filepath.Join(out, "Scan.lean"), []byte(scanLean(repo))); err != nil {
+		return err
+	}
+
+	// 4m. the three writers of qframe.go (ToJSON, ToCSV, String) as terms of QF.JS / QF.CS / QF.PS (wast.go)
+	if err := writeIfChanged(filepath.Join(out, "Writers.lean"), []byte(writersLean(repo, root, strs))); err != nil {
+		return err
+	}
+
 	// 4e. the row hash functions as terms of QF.HE (hast.go)
 	if err := writeIfChanged(filepath.Join(out, "Hash.lean"), []byte(hashLean(colPkgs, pkgFns))); err != nil {
 		return err
